@@ -1,68 +1,93 @@
 #!/usr/bin/env python3
-"""seedcheck.py <worktree> <n> <PID> [--skip-suite]
-Confirms a seeded change produced by an independent sub-agent in <worktree>/out/<n>/ and records it under
-/verif/seeded/<PID>_<n>/ : (1) demo passes on the clean worktree, (2) patch applies, (3) demo fails with the patch,
-(4) the repository's test suite still passes with the patch (same passing set as the clean worktree),
-(5) runs ./check <PID> against the patched tree (VP_REPO) and records whether it reports VIOLATION."""
+"""seedcheck.py <dir-with-patch-and-demo> <PID> <n> [--skip-suite] [--note text]
+Confirms a seeded change (produced by an independent sub-agent that saw only the property text) against the CURRENT
+/repo HEAD, in a scratch worktree /tmp/sc_tree (created on demand, removed by `seedcheck.py --cleanup`):
+ (1) demo passes on the clean tree, (2) patch applies, (3) demo fails with the patch, (4) the repository's test suite
+ passes exactly as on the clean tree, (5) ./check <PID> (VP_REPO=patched tree) reports VIOLATION or not.
+Records everything in /verif/seeded/<PID>_<n>/meta.json (patch.diff, demo and scripts are copied there)."""
 import json, os, shutil, subprocess, sys, time
-wt, n, pid = sys.argv[1], sys.argv[2], sys.argv[3]
-skip_suite = "--skip-suite" in sys.argv
-src = os.path.join(wt, "out", n)
-dst = os.path.join("/verif/seeded", "%s_%s" % (pid, n))
-os.makedirs(dst, exist_ok=True)
-for f in os.listdir(src):
-    p = os.path.join(src, f)
-    if os.path.isfile(p) and os.path.getsize(p) < 2_000_000 and not f.endswith((".o", ".bin")) and f not in ("demo",):
-        shutil.copy(p, os.path.join(dst, f))
-def sh(cmd, cwd=None, timeout=3600):
+SC = "/tmp/sc_tree"
+def sh(cmd, cwd=None, timeout=7200):
     r = subprocess.run(cmd, shell=True, cwd=cwd, stdout=subprocess.PIPE, stderr=subprocess.STDOUT, timeout=timeout)
     return r.returncode, r.stdout.decode(errors="replace")
-meta = {"property": pid, "source": "independent sub-agent given only the property text and a scratch worktree", "ran": []}
-rc, o = sh("git status --porcelain --untracked-files=no", wt)
-assert o.strip() == "", "worktree not clean: " + o
-def demo(tag):
-    rc, o = sh("sh ./build.sh %s" % wt, src)
+if "--cleanup" in sys.argv:
+    sh("git -C /repo worktree remove --force %s" % SC); sys.exit(0)
+src, pid, n = sys.argv[1], sys.argv[2], sys.argv[3]
+skip_suite = "--skip-suite" in sys.argv
+note = sys.argv[sys.argv.index("--note") + 1] if "--note" in sys.argv else None
+dst = os.path.join("/verif/seeded", "%s_%s" % (pid, n))
+if os.path.abspath(src) != os.path.abspath(dst):
+    os.makedirs(dst, exist_ok=True)
+    for f in os.listdir(src):
+        p = os.path.join(src, f)
+        if os.path.isfile(p) and os.path.getsize(p) < 2_000_000 and not f.endswith((".o", ".bin")) and f != "demo":
+            shutil.copy(p, os.path.join(dst, f))
+head = sh("git -C /repo rev-parse --short HEAD")[1].strip()
+if not os.path.exists(SC):
+    sh("git -C /repo worktree add --detach %s HEAD" % SC)
+    sh("cmake -G Ninja -S . -B _build -DCARES_BUILD_TESTS=ON -DCMAKE_BUILD_TYPE=RelWithDebInfo", SC)
+sh("git checkout -q --detach %s && git checkout -- ." % head, SC)
+def passing(f):
+    d = json.load(open(f)); s = set()
+    for ts in d["testsuites"]:
+        for t in ts["testsuite"]:
+            if t.get("result") == "COMPLETED" and not t.get("failures"): s.add(ts["name"] + "::" + t["name"])
+    return s
+base_json = "/tmp/sc_base_%s.json" % head
+if not skip_suite and not os.path.exists(base_json):
+    sh("cmake --build _build -j8", SC)
+    sh("../bin/arestest --gtest_output=json:%s >/dev/null 2>&1; true" % base_json, os.path.join(SC, "_build", "test"))
+def demo():
+    rc, o = sh("sh ./build.sh %s" % SC, dst, timeout=900)
     if rc != 0:
         return None, "build failed: " + o[-600:]
-    run = "sh ./run.sh %s" % wt if os.path.exists(os.path.join(src, "run.sh")) else "./demo"
-    rc, o = sh(run, src, timeout=600)
+    if os.path.exists(os.path.join(dst, "run.sh")):
+        rc, o = sh("sh ./run.sh", dst, timeout=900)
+        if rc in (126, 127, 2) or "usage" in o.lower():
+            rc, o = sh("sh ./run.sh %s" % SC, dst, timeout=900)
+    else:
+        rc, o = sh("./demo", dst, timeout=900)
     return rc, o[-800:]
-rc0, o0 = demo("clean")
-meta["demo_clean_exit"] = rc0; meta["demo_clean_tail"] = o0
-rc, o = sh("git apply %s" % os.path.join(src, "patch.diff"), wt)
-meta["patch_applies"] = (rc == 0)
+meta = {"property": pid, "repo_head": head,
+        "source": "independent sub-agent given only the property text and its own scratch worktree (no access to /verif)"}
+if note: meta["note"] = note
+old = os.path.join(dst, "meta.json")
+if os.path.exists(old):
+    try:
+        prev = json.load(open(old)); meta["history"] = prev.get("history", []) + [{k: prev.get(k) for k in ("repo_head", "detected", "check_summary", "note") if k in prev}]
+    except Exception: pass
+rc0, o0 = demo()
+meta["demo_clean_exit"], meta["demo_clean_tail"] = rc0, o0
+rc, o = sh("git apply %s" % os.path.join(dst, "patch.diff"), SC)
+meta["patch_applies"] = (rc == 0); meta["patch_apply_msg"] = o[-300:]
 try:
-    rc1, o1 = demo("patched")
-    meta["demo_patched_exit"] = rc1; meta["demo_patched_tail"] = o1
+    rc1, o1 = demo()
+    meta["demo_patched_exit"], meta["demo_patched_tail"] = rc1, o1
     if not skip_suite:
-        rc, o = sh("cmake --build _build -j6 2>&1 | tail -3", wt)
-        rc, o = sh("../bin/arestest --gtest_output=json:/tmp/seed_%s_%s.json >/dev/null 2>&1; echo done" % (pid, n), os.path.join(wt, "_build", "test"))
-        base = "/tmp/%s_base.json" % pid
-        def passing(f):
-            d = json.load(open(f)); s = set()
-            for ts in d["testsuites"]:
-                for t in ts["testsuite"]:
-                    if t.get("result") == "COMPLETED" and not t.get("failures"): s.add(ts["name"] + "::" + t["name"])
-            return s
-        if os.path.exists(base):
-            a, b = passing(base), passing("/tmp/seed_%s_%s.json" % (pid, n))
-            meta["suite_pass_before"] = len(a); meta["suite_pass_after"] = len(b); meta["suite_newly_failing"] = sorted(a - b)[:10]
-        else:
-            meta["suite_note"] = "no baseline json " + base
+        sh("cmake --build _build -j8", SC)
+        aj = "/tmp/sc_after_%s_%s.json" % (pid, n)
+        sh("../bin/arestest --gtest_output=json:%s >/dev/null 2>&1; true" % aj, os.path.join(SC, "_build", "test"))
+        a, b = passing(base_json), passing(aj)
+        meta["suite_pass_before"], meta["suite_pass_after"], meta["suite_newly_failing"] = len(a), len(b), sorted(a - b)[:10]
     t0 = time.time()
-    env = "VP_REPO=%s VP_WORK=/tmp/seedwork_%s_%s VP_WORKERS=6" % (wt, pid, n)
-    rc, o = sh("%s /verif/check %s" % (env, pid), "/verif", timeout=7200)
+    rc, o = sh("VP_REPO=%s VP_WORK=/tmp/seedwork_%s_%s VP_WORKERS=8 /verif/check %s" % (SC, pid, n, pid), "/verif")
     meta["check_exit"] = rc
-    meta["check_violations"] = [l[:300] for l in o.splitlines() if l.startswith("VIOLATION")][:8]
+    meta["check_violations"] = [l[:320] for l in o.splitlines() if l.startswith("VIOLATION")][:8]
     meta["check_summary"] = [l for l in o.splitlines() if l.startswith(pid + ":")]
     meta["check_inconclusive"] = [l[:200] for l in o.splitlines() if l.startswith("INCONCLUSIVE")][:8]
     meta["check_wall_s"] = round(time.time() - t0)
     shutil.rmtree("/tmp/seedwork_%s_%s" % (pid, n), ignore_errors=True)
 finally:
-    sh("git checkout -- . ", wt)
-meta["valid_seed"] = (rc0 == 0 and meta["patch_applies"] and meta.get("demo_patched_exit") not in (0, None) and not meta.get("suite_newly_failing"))
-meta["detected"] = meta.get("check_exit") == 1 and bool(meta.get("check_violations"))
-meta["ran"] = ["sh build.sh <tree>; sh run.sh <tree> (clean: exit %s; patched: exit %s)" % (rc0, meta.get("demo_patched_exit")),
-               "git apply patch.diff; cmake --build; arestest pass-set comparison", "VP_REPO=<patched tree> ./check %s" % pid]
+    sh("git checkout -- . && git clean -fdq src include", SC)
+    for f in ("demo",):
+        try: os.remove(os.path.join(dst, f))
+        except OSError: pass
+meta["valid_seed"] = bool(rc0 == 0 and meta["patch_applies"] and meta.get("demo_patched_exit") not in (0, None) and not meta.get("suite_newly_failing"))
+meta["detected"] = bool(meta.get("check_exit") == 1 and meta.get("check_violations"))
+meta["ran"] = ["sh build.sh <tree> && sh run.sh  (clean tree at %s: exit %s; with patch.diff applied: exit %s)" % (head, rc0, meta.get("demo_patched_exit")),
+               "git apply patch.diff; cmake --build; arestest: set of passing tests compared with the clean tree",
+               "VP_REPO=<patched tree> ./check %s" % pid]
 json.dump(meta, open(os.path.join(dst, "meta.json"), "w"), indent=1)
-print(json.dumps({k: meta[k] for k in ("valid_seed", "detected", "demo_clean_exit", "demo_patched_exit", "check_exit", "check_summary", "check_violations", "check_inconclusive", "suite_newly_failing") if k in meta}, indent=1)[:3000])
+print(pid, n, "valid_seed=%s detected=%s" % (meta["valid_seed"], meta["detected"]), meta.get("check_summary"), "clean=%s patched=%s newly_failing=%s"
+      % (rc0, meta.get("demo_patched_exit"), meta.get("suite_newly_failing")))
+for v in meta.get("check_violations", [])[:3]: print("   ", v[:250])
